@@ -22,6 +22,12 @@ MUTANTS: List[Dict[str, Any]] = [
         ],
     },
     {
+        "id": "revert-FX7",
+        "what": "open_positions keeps an asset that has unsold lot cost but no account with a positive balance (the defect fixed by FX7): KeyError with -n",
+        "checks": ["C08"],
+        "edits": [{"file": "rp2/plugin/report/open_positions.py", "old": "            if asset in asset_cost_bases and asset not in asset_crypto_balance_holder:\n                total_cost_basis -= asset_cost_bases.pop(asset)\n", "new": ""}],
+    },
+    {
         "id": "hifo-key-flipped",
         "what": "HIFO sort key uses +price (behaves like LOFO)",
         "checks": ["C01"],
